@@ -27,6 +27,14 @@ CHECKS = {
           'Kosaraju direction of the component pass, UpdateFor guard). Because these hold for every path of the code they hold after every update history.',
   'note': 'Does not decide that the answers are exact as data; a rewrite of a traversal into a different algorithm (e.g. recursive DFS) makes the corresponding rule ANALYSIS-BROKEN (exit 2), not a pass. Trusts clang AST/CFG and the normal form in engine/shape.py.',
  },
+ 'C06': {
+  'technique': 'model extraction (LALR tables from the compiled unit + abstract interpretation of the semantic actions over symbolic tokens) and table-level queries; bison re-generation as sync obligation',
+  'text': 'Decides the grammar-level content of the property on the parser model: the committed tables are exactly bison(RSParserImpl.y) without conflicts and TokenID values denote the same terminals; '
+          'the grouping of every ordered pair of infix operators, prefix operators, quantifier scope, product flattening and redundant parentheses equals the documented table; at every reduction '
+          'the node range equals the span of the yield, children nest inside parents and are in source order, for a corpus that exercises every non-error production. Token kinds, not text, are the inputs, '
+          'so the verdict covers every spelling, whitespace placement and both syntaxes.',
+  'note': 'Trusts bison 3.8.2 for the sync comparison only, the action interpreter (engine/evalmini.py) and the documented precedence table tables/precedence.json. Does not decide that RE/flex reports columns in code points, nor sentences longer than the corpus shapes (the automaton is finite, the corpus covers every production, but not every state/lookahead pair).',
+ },
 }
 
 _PENDING = 'rule module not yet implemented in this round; see DESIGN.md section 4 for the clauses planned'
